@@ -81,6 +81,39 @@ ERRORS = ["strict", "replace", "ignore", "xmlcharrefreplace", "backslashreplace"
 OUT_ENCODINGS = [None, "", "utf-8", "latin-1", "ascii", "cp1251", "shift_jis", "utf-16", "koi8-r"]
 
 
+FUTURE = ["annotations", "division"]
+PRE_NAMES = [None, "recorder", "convert_comments", "zq"]
+
+
+def preprocessor_of(name, seen=None):
+    """the `preprocessor=` option: None | a recorder (identity that remembers what it was handed) | mako's own
+    convert_comments | a text-changing one (every Z becomes ZQ; no generated identifier or keyword contains a Z)"""
+    if name is None:
+        return None
+    if name == "recorder":
+        def recorder(text):
+            if seen is not None:
+                seen.append(text)
+            return text
+        return recorder
+    if name == "convert_comments":
+        from mako.ext.preprocessors import convert_comments
+        return convert_comments
+    if name == "zq":
+        return lambda text: text.replace("Z", "ZQ")
+    raise ValueError(name)
+
+
+def opts_of(c, seen=None):
+    """keyword arguments of Template / TemplateLookup for the option dimension of a case"""
+    kw = {}
+    if c.get("future"):
+        kw["future_imports"] = list(c["future"])
+    if c.get("pre"):
+        kw["preprocessor"] = preprocessor_of(c["pre"], seen)
+    return kw
+
+
 def encb(b) -> str:
     return ",".join(map(str, b)) if b else "-"
 
@@ -362,9 +395,9 @@ class Impl:
                 return super().match_end()
         self.LX, self.T, self.LK, self.U, self.R, self.X, self.ProbeLexer = LX, T, LK, U, R, X, ProbeLexer
 
-    def lex(self, source, ie):
+    def lex(self, source, ie, preprocessor=None):
         """what Lexer.parse hands to its loop: ('ok', encoding, text, start) | ('compile', kind) | ('lookup',) | ('other', cls)"""
-        lx = self.ProbeLexer(source, input_encoding=ie)
+        lx = self.ProbeLexer(source, input_encoding=ie, preprocessor=preprocessor)
         try:
             lx.parse()
         except self.X.CompileException as e:
@@ -586,6 +619,38 @@ def corr_decode(ctx, drv, impl, cases, big):
         want = ("ok", dec(a), t, int(b))
         if got != want:
             ctx.disagree("corr.decode_raw_stream_str", {"input": t, "input_encoding": ie}, want, got)
+    # preprocessors: decode, then the preprocessors on the decoded str, then the comment skip on what they return
+    order = drv.ask("encd preorder").split(" ")
+    dec_first, skip_after = order[0] == "1", order[1] == "1"
+    st = ctx.stream("corr.preprocessors")
+    sub = [(d, ie, p) for (d, ie), p in zip(items, pred) if p[0] in ("ok", "compile", "lookup")][: (20000 if big else 3000)]
+    todo = []
+    for k, (d, ie, p) in enumerate(sub):
+        name = PRE_NAMES[1 + k % 3]
+        if p[0] == "ok" and dec_first:
+            try:
+                t2 = preprocessor_of(name)(p[2])
+            except Exception:
+                continue
+            todo.append((d, ie, name, p, t2))
+        else:
+            todo.append((d, ie, name, p, None))
+    outs = drv.ask_many(["encd skip " + enc(t2 if (t2 is not None and skip_after) else (p[2] if p[0] == "ok" else "")) for d, ie, name, p, t2 in todo])
+    for (d, ie, name, p, t2), o in zip(todo, outs):
+        st["cases"] += 1
+        seen = []
+        got = impl.lex(d, ie, preprocessor=[preprocessor_of(name, seen)])
+        if not dec_first:
+            want = ("other",)                    # the model: a str preprocessor handed bytes (Err.preprocessorOnBytes)
+            ok = got[0] == "other"
+        elif p[0] == "ok":
+            want = ("ok", p[1], t2, int(o))
+            ok = got == want and (name != "recorder" or seen == [p[2]])
+        else:
+            want, ok = p, got == p
+        ctx.branch("preprocessors:%s:%s" % (name, p[0]))
+        if not ok:
+            ctx.disagree("corr.preprocessors", {"bytes": d.hex(), "input_encoding": ie, "pre": name}, want, [got, [repr(x)[:40] for x in seen]])
     # the codecs Lean has itself: the whole function in Lean
     lean_items = [(d, ie) for d, ie in items if ie in (None, "", "latin-1", "utf-8", "ascii")][: (40000 if big else 5000)]
     outs = drv.ask_many(["encd lex %s %s" % (encb(d), optname(ie)) for d, ie in lean_items])
@@ -744,7 +809,17 @@ from mako.template import Template
 out = []
 for j in jobs:
     try:
-        t = Template(filename=j["filename"], module_directory=j["module_directory"], input_encoding=j["input_encoding"])
+        kw = {}
+        if j.get("future"):
+            kw["future_imports"] = j["future"]
+        if j.get("pre") == "convert_comments":
+            from mako.ext.preprocessors import convert_comments
+            kw["preprocessor"] = convert_comments
+        elif j.get("pre") == "zq":
+            kw["preprocessor"] = lambda text: text.replace("Z", "ZQ")
+        elif j.get("pre") == "recorder":
+            kw["preprocessor"] = lambda text: text
+        t = Template(filename=j["filename"], module_directory=j["module_directory"], input_encoding=j["input_encoding"], **kw)
         r = t.render_unicode(x=j["x"], y=j["y"])
         out.append({"ok": [ord(c) for c in r], "source": [ord(c) for c in t.source]})
     except Exception as e:
@@ -761,7 +836,7 @@ class Oracle:
         os.makedirs(os.path.join(base, "t"), exist_ok=True)
 
     def reference(self, text, c):
-        t = self.impl.T.Template(text)
+        t = self.impl.T.Template(text, **opts_of(c))
         return t, t.render_unicode(x=c["x"], y=c["y"])
 
     def write(self, c, data, name=None):
@@ -774,22 +849,25 @@ class Oracle:
     def subject(self, path, c, data):
         """-> Template made along `path`"""
         T, ie = self.impl.T, c["input_encoding"]
+        self.seen = []
+        kw = opts_of(c, self.seen)
         if path == "bytes":
-            return T.Template(data, input_encoding=ie)
+            return T.Template(data, input_encoding=ie, **kw)
         if path == "file":
-            return T.Template(filename=self.write(c, data), input_encoding=ie)
+            return T.Template(filename=self.write(c, data), input_encoding=ie, **kw)
         if path in ("moddir", "reload", "fresh", "moddir-nonascii-name"):
             name = None
             if path == "moddir-nonascii-name":
                 name = "n%d_%s.html" % (self.n, c.get("fname", "\u00e9\u0436\u65e5"))
             fn = self.write(c, data, name)
             md = os.path.join(self.base, "m%d" % self.n)
-            t = T.Template(filename=fn, module_directory=md, input_encoding=ie)
+            t = T.Template(filename=fn, module_directory=md, input_encoding=ie, **kw)
             if path == "moddir" or path == "moddir-nonascii-name":
                 return t
             if path == "reload":
-                return T.Template(filename=fn, module_directory=md, input_encoding=ie)
-            self.fresh_jobs.append(({"filename": fn, "module_directory": md, "input_encoding": ie, "x": c["x"], "y": c["y"]}, c))
+                return T.Template(filename=fn, module_directory=md, input_encoding=ie, **kw)
+            self.fresh_jobs.append(({"filename": fn, "module_directory": md, "input_encoding": ie, "x": c["x"], "y": c["y"],
+                                     "future": c.get("future"), "pre": c.get("pre")}, c))
             return t
         if path == "lookup":
             d = os.path.join(self.base, "l%d" % self.n)
@@ -797,7 +875,7 @@ class Oracle:
             os.makedirs(d)
             with open(os.path.join(d, "a.html"), "wb") as f:
                 f.write(data)
-            lk = self.impl.LK.TemplateLookup(directories=[d], module_directory=os.path.join(d, "mods"), input_encoding=ie)
+            lk = self.impl.LK.TemplateLookup(directories=[d], module_directory=os.path.join(d, "mods"), input_encoding=ie, **kw)
             return lk.get_template("a.html")
         raise ValueError(path)
 
@@ -842,6 +920,16 @@ class Oracle:
             return ("unexpected-exception-after-compile:" + type(e).__name__, str(e)[:200])
 
     def compare(self, t, c, path, exp):
+        if c.get("pre") == "recorder":
+            # "compiles to the same template as its decoded text": what a preprocessor is handed is that text
+            if not self.seen:
+                return ("preprocessor-not-called", "")
+            for got in self.seen:
+                if not isinstance(got, str):
+                    return ("preprocessor-got-non-str", "the preprocessor was handed %s %r" % (type(got).__name__, got[:40]))
+                if got != exp[1]:
+                    site = "comment-sniffed-through-dropped-bytes" if self.sniff_defect(c, exp[1]) else "preprocessor-got-other-text"
+                    return (site, "the preprocessor was handed %r instead of %r" % (got[:60], exp[1][:60]))
         ref, want = self.reference(exp[1], c)
         got = t.render_unicode(x=c["x"], y=c["y"])
         if got != want:
@@ -1023,6 +1111,7 @@ def oracle_grid(ctx, impl, cases):
             for path in paths:
                 st["cases"] += 1
                 ctx.branch("oracle:%s:%s" % (c["style"], path))
+                ctx.branch("oracle-option:%s:future=%s,pre=%s" % (path, "yes" if c.get("future") else "no", c.get("pre")))
                 ctx.branch("oracle-codec:%s" % c["codec"])
                 if c["comment"] or c["input_encoding"] or c["bom"] or not bytes.fromhex(c["data"]).isascii():
                     ctx.nontriv((c["data"], c["input_encoding"], path))
@@ -1135,7 +1224,8 @@ def corr_module(ctx, drv, impl, cases, big):
             fn = os.path.join(base, "t%d%s.html" % (n, ["", "\u00e9", "\u0436\u65e5'", "\u2028\U0001f600"][n % 4]))
             open(fn, "wb").write(data)
             try:
-                t = impl.T.Template(filename=fn, module_directory=os.path.join(base, "m"), input_encoding=c["input_encoding"])
+                t = impl.T.Template(filename=fn, module_directory=os.path.join(base, "m"), input_encoding=c["input_encoding"],
+                                    **({"future_imports": FUTURE} if n % 2 else {}))
             except (impl.X.SyntaxException, impl.X.CompileException):
                 continue
             except Exception as e:
@@ -1179,12 +1269,17 @@ def corr_module(ctx, drv, impl, cases, big):
             reqs.append("encd penc %d %s" % (ok, encb(raw[:400])))
             reqs.append("encd modenc " + optname(eff))
             reqs.append("encd ascii " + enc(fn))
+            reqs.append("encd modhead %s%s" % (enc(eff), "".join(" " + enc(x) for x in (t.future_imports or []))))
         outs = drv.ask_many(reqs)
         rep_reqs, rep_rows = [], []
         for i, (c, t, raw, data, fn) in enumerate(rows):
             st["cases"] += 1
             eff = t.module._source_encoding
-            magic, penc, modenc, afn = outs[4 * i], outs[4 * i + 1], outs[4 * i + 2], outs[4 * i + 3]
+            magic, penc, modenc, afn, head = outs[5 * i], outs[5 * i + 1], outs[5 * i + 2], outs[5 * i + 3], outs[5 * i + 4]
+            ctx.branch("module:future_imports=%s" % ("yes" if t.future_imports else "no"))
+            if not raw.startswith(dec(head).encode("ascii")):
+                ctx.disagree("corr.module_file", {"what": "first lines (magic comment, from __future__ import)", "encoding": eff,
+                                                  "future_imports": t.future_imports}, dec(head), raw[:120].decode("latin-1"))
             mfn = re.search(rb"^_template_filename = (.*)$", raw, re.M)
             if not mfn or mfn.group(1) != dec(afn).encode("ascii"):
                 ctx.disagree("corr.module_file", {"what": "_template_filename line", "filename": fn}, dec(afn),
@@ -1266,6 +1361,10 @@ def build_cases(ctx):
                 pass
             for _ in range(per_cell):
                 c = make_case(ctx.rng, codec, style, ctx.rng.randint(2, 7), idx)
+                # the option dimension: future_imports x preprocessor, rotating so that every (style, option) pair and,
+                # over the codecs, every (path, option) pair is reached
+                c["future"] = FUTURE if idx % 2 else None
+                c["pre"] = PRE_NAMES[(idx // 2 + CODECS.index(codec)) % len(PRE_NAMES)]
                 cases.append(c)
                 idx += 1
     return cases
